@@ -32,6 +32,24 @@ pub fn looks_like_scheme(bytes: &[u8]) -> bool {
 	false
 }
 
+/// Checks if the first segment of the given relative path contains a `:`.
+///
+/// Such a path cannot start a relative reference: everything before the `:`
+/// would be read as a scheme (or the reference would be invalid if it is not
+/// a valid scheme).
+#[inline]
+pub fn first_segment_contains_colon(bytes: &[u8]) -> bool {
+	for &b in bytes {
+		match b {
+			b':' => return true,
+			b'/' => return false,
+			_ => (),
+		}
+	}
+
+	false
+}
+
 #[derive(Debug, PartialEq, Eq)]
 pub enum SchemeAuthorityOrPath {
 	Scheme,
